@@ -5,6 +5,11 @@ V = os.path.dirname(os.path.dirname(os.path.abspath(__file__)))
 
 # id -> dict(level, engine, technique, text, note, design)
 CLAIMED = {
+ "C18": dict(level="exploration", engine="vsh-virtual",
+   technique="line-based sequential reference model vs the probe trace of the complete shell, with standard input as a regular file (fd-0 offset probes), as a pipe written by a scheduler-controlled feeder in every split into <=3 chunks and random chunkings, as -c, through `.` and as a script operand",
+   text="250 (quick) / 4000 generated scripts of 5-12 items (reads consuming following lines incl. in loops and multi-line groups, alias/option/portable-mode changes affecting later lines, multi-line compounds, here-documents, continuations, trailing `;`, data lines that would be visible or fatal if executed, a syntax error planted at a later line); ~8*10^4 (quick) runs; the trace, here-document bytes, fd-0 offsets and exit status must match the model in every feeding mode and chunking.",
+   note="Trusted: the item-level model in checks/c18.rs (expected events known by construction); the feeder is a separate virtual process writing one chunk per scheduling turn.",
+   design="5/C18"),
  "C11": dict(level="exploration", engine="lib-inproc + vsh-virtual",
    technique="(A) lock-step merge-model monitor over TrapSet histories on the real Concurrent<VirtualSystem> (kernel dispositions read back); (B) offline event-log checker over scripts with SIGUSR1 deliveries injected from outside at every scheduler step and preemption point",
    text="A: all TrapSet histories to depth 4 (quick) / 6 over set_action (3 actions x override) on 4 signals + KILL/STOP + EXIT, peek, enable/disable of each internal disposition group, enter_subshell with each option pair, x 4 sets of signals ignored on entry; kernel disposition of 10 signals, listed trap action and set_action outcome compared with the merge model after every step. B: 300 (quick) / 5000 generated scripts; one delivery at every scheduler step of the FIFO run, random pairs, and random multi-delivery runs under random preempting schedules (~10^5 deliveries quick); the checker enforces one trap run per delivery window, none without delivery, correct $? at action start, no re-entry, $? and control flow of the script unchanged, trap within one command boundary.",
